@@ -8,7 +8,7 @@ import TensorModel.Ext.Hooks
         `defaultengine_linalg.go` and the package-level functions of `api_arith.go`
         (`Inner`, `MatVecMul`, `MatMul`, `Outer`, `Contract`, `Dot`) and `(*Dense).Trace`;
   * §3  S: textbook sums of products on logical arrays;
-  * §4  known-defect regions (F50–F58) and the family record.
+  * §4  known-defect regions (F50, F51, F53, F55, F56, F58; F52, F54, F57 are repaired) and the family record.
 
   Step syntax:  `la <inner|mv|mm|outer|dot|tdot|trace> <fn|meth> $a [$b] [axesA axesB] [opts…]`
   (`tdot` takes the two axis lists; `trace` takes one operand; opts = `reuse=$k`, `incr=$k`, `unsafe`).
@@ -127,7 +127,7 @@ def mmParams (acol bcol ccol aT bT : Bool) (m k b0 n c0 c1 : Int) : MMCall :=
 inductive DotCase where
   | scalarScalar | scalarLeft | scalarRight
   | inner             -- vector · vector → `Inner`, result a fresh rank-0 tensor
-  | vecMat            -- vector · matrix → `b.T(); b.MatVecMul(a); b.UT()`
+  | vecMat            -- vector · matrix → `bT.MatVecMul(a)`, `bT` a shallow copy of `b`, transposed
   | matVec            -- matrix · vector → `a.MatVecMul(b)`
   | matMat            -- matrix · matrix → `a.MatMul(b)`
   | tensor            -- anything else → `a.TensorMul(b, [last], [second-to-last or 0])`
@@ -169,31 +169,12 @@ def outerCheck (ts os : Shape) : Res Shape := do
   if !isVector ts || !isVector os then throwErr "Outer only works when there are two vectors"
   pure [totalSize ts, totalSize os]
 
-/-- capacity of a Go `[]int` built by appending `n` elements one at a time to a nil slice -/
-def goCap (n : Nat) : Nat :=
-  if n == 0 then 0 else
-  let rec go (fuel c : Nat) : Nat := match fuel with
-    | 0 => c
-    | f + 1 => if c ≥ n then c else go f (2 * c)
-  go n 1
-
-/-- overwrite the common prefix -/
-def overwritePrefix : List Int → List Int → List Int
-  | _ :: xs, y :: ys => y :: overwritePrefix xs ys
-  | xs, _ => xs
-
 /-- axes not named in `axes`, ascending (`notins`) -/
 def notIns (rank : Nat) (axes : List Int) : List Int := (rangeI rank).filter (fun i => !axes.contains i)
 
-/-- the permutation `TensorMul` hands to `doT.T(...)`: `append(notins, axesA...)` — sharing the
-    backing array of `notins` when its capacity suffices — after `notins[:0]` was refilled with the
-    second operand's free axes. -/
-def tmulAxesA (td : Nat) (axesA : List Int) (od : Nat) (axesB : List Int) : List Int :=
-  let nA := notIns td axesA
-  let c := goCap nA.length
-  let shares := nA.length + axesA.length ≤ c
-  let nB := notIns od axesB
-  if shares then overwritePrefix (nA ++ axesA) (nB.take c) else nA ++ axesA
+/-- the permutation `TensorMul` hands to `doT.T(...)`: the free axes of the left operand followed by
+    its contraction axes, built in a slice of its own -/
+def tmulAxesA (td : Nat) (axesA : List Int) : List Int := notIns td axesA ++ axesA
 
 /-! ### the interpreter monad: errors keep the state reached so far -/
 
@@ -511,15 +492,13 @@ def dotCore (tmul : Nat → Nat → List Int → List Int → LM Nat) (aId bId :
     -- New(FromScalar(ret)): the reuse / incr tensors are not looked at
     addObj { ap := { shape := [], strides := [], fin := true }, win := ⟨bf, 0, 1, 1⟩, dt := a.dt }
   | .vecMat =>
-    -- b.T(); defer b.UT(); return b.MatVecMul(a, ...)   (the error of T() is dropped)
-    let ps0 ← get
-    (match Dense.T ps0.st b [] with
-      | .ok (s, d) => do putSt s; putObj bId d
-      | .error (.err _) => pure ()
-      | .error (.panic t) => failP t : LM Unit)
-    let r ← tryCatch (denseMatVecMul bId aId both) (fun e => do putObj bId (← getObj bId).ut; throw e)
-    putObj bId (← getObj bId).ut
-    pure r
+    -- bT := shallow copy of b (same storage window, metadata of its own); bT.T(); return bT.MatVecMul(a, ...)
+    -- the caller's `b` is not written
+    let bT ← (match Dense.T (← getSt) b [] with
+      | .ok (s, d) => do putSt s; addObj d
+      | .error (.err _) => failE "Dot: T"
+      | .error (.panic t) => failP t : LM Nat)
+    denseMatVecMul bT aId both
   | .matVec => denseMatVecMul aId bId both
   | .matMat => denseMatMul aId bId both
   | .tensor =>
@@ -549,9 +528,9 @@ def cloneObj (id : Nat) : LM Nat := do
   putSt s
   addObj d
 
-/-- `(*Dense).TensorMul(other, axesA, axesB)`; `dot2` is the package-level `Dot` (the two operands
-    it is given here are matrices, so it never re-enters `TensorMul`) -/
-def tensorMulCore (dot2 : Nat → Nat → LOpts → LM Nat) (tId oId : Nat) (axesA axesB : List Int) : LM Nat := do
+/-- `(*Dense).TensorMul(other, axesA, axesB)`: the two flattened operands are multiplied with
+    `(*Dense).MatMul` -/
+def tensorMul (tId oId : Nat) (axesA axesB : List Int) : LM Nat := do
   let t ← getObj tId
   let other ← getObj oId
   let ts := t.shape
@@ -569,7 +548,7 @@ def tensorMulCore (dot2 : Nat → Nat → LOpts → LM Nat) (tId oId : Nat) (axe
         break
   if !same then failE "shapeMismatch"
   let nA := notIns td axesA
-  let newAxesA := tmulAxesA td axesA od axesB
+  let newAxesA := tmulAxesA td axesA
   let dimsA ← lift (axesA.mapM (fun x => idx ts x))
   let n2 := prod dimsA
   if n2 == 0 then failP "integer divide by zero"
@@ -592,14 +571,11 @@ def tensorMulCore (dot2 : Nat → Nat → LOpts → LM Nat) (tId oId : Nat) (axe
   tObj doOther newAxesB
   transposeObj doOther
   reshapeObj doOther newShapeO
-  let rt ← dot2 doT doOther {}
+  let rt ← denseMatMul doT doOther {}
   let retShape := retShape1 ++ retShape2
   let retShape := if retShape.isEmpty then [1] else retShape
   reshapeObj rt retShape
   pure rt
-
-def tensorMul : Nat → Nat → List Int → List Int → LM Nat :=
-  tensorMulCore (dotCore (fun _ _ _ _ => failP "unreachable: TensorMul re-entered"))
 
 def dot : Nat → Nat → LOpts → LM Nat := dotCore tensorMul
 
@@ -897,26 +873,11 @@ def Excl_mixedOrder (ts : List Dense) : Bool :=
     column-major operand -/
 def Excl_tmulColMajor (a b : Dense) : Bool := a.ap.o.col || b.ap.o.col
 
-/-- F52: `TensorMul`'s scratch-slice aliasing changes the permutation handed to `T` -/
-def Excl_tmulAlias (td : Nat) (axesA : List Int) (od : Nat) (axesB : List Int) : Bool :=
-  tmulAxesA td axesA od axesB != notIns td axesA ++ axesA
-
-/-- F57: `TensorMul` whose contracted extent is 1 (no axes at all = an outer product, or axes of
-    length one): the operands are flattened to `(m,1)` and `(1,n)`, which `Dot` takes for two vectors
-    (inner product / shape mismatch) — the contraction is refused although it is well defined. -/
-def Excl_tmulUnitContraction (ts : Shape) (axesA : List Int) : Bool :=
-  prod (axesA.map (fun x => (getI? ts x).getD 0)) == 1
-
 /-- F58: a reuse destination that is a view: `reuseCheckShape` overwrites its strides with those of a
     contiguous tensor and clears its view flag, so the product is written to the first cells of the
     view's storage window — over cells of the parent that do not belong to the view. -/
 def Excl_reuseView (reuse : Option Dense) : Bool :=
   match reuse with | some d => d.view | none => false
-
-/-- F54: `Dot(vector, matrix)` on a matrix with a pending transpose: `b.T()` undoes the pending
-    transpose and the deferred `b.UT()` is then a no-op: the caller's matrix is left un-transposed. -/
-def Excl_dotUndoesT (a b : Dense) : Bool :=
-  dotCase a.shape b.shape == .vecMat && b.old.isSome
 
 /-- F55: `Dot` ignores the reuse / incr tensors on the vector·vector path (fresh rank-0 result) and the
     incr tensor on the tensor path. -/
@@ -938,21 +899,16 @@ def excl (ps : PState) (toks : List String) : List String × Bool :=
       let f53 := blasOp && (Excl_vecInc a || Excl_vecInc b)
       let f51 := c.op != "trace" && Excl_mixedOrder ([a, b] ++ dest)
       let isTm := c.op == "tdot" || (c.op == "dot" && dotCase a.shape b.shape == .tensor)
-      let axA : List Int := if c.op == "tdot" then c.axesA else [(a.shape.length : Int) - 1]
-      let axB : List Int := if c.op == "tdot" then c.axesB else [if b.shape.length ≥ 2 then (b.shape.length : Int) - 2 else 0]
-      let f52 := isTm && Excl_tmulAlias a.shape.length axA b.shape.length axB
       let f58 := ["mv", "mm", "outer", "dot"].contains c.op && Excl_reuseView po.o.reuse
-      let f57 := isTm && Excl_tmulUnitContraction a.shape axA
-      let f54 := c.op == "dot" && Excl_dotUndoesT a b
       let f55 := c.op == "dot" && Excl_dotIgnoresDest a b po.o.reuse.isSome po.o.incr.isSome
       let f56 := isTm && Excl_tmulColMajor a b
       let dc := dotCase a.shape b.shape
       let f32 := c.op == "dot" && (dc == .scalarScalar || dc == .scalarLeft || dc == .scalarRight) &&
         po.o.incr.isSome && a.win.len == 1 && b.win.len == 1
       let f24 := Excl_shortStrides a || Excl_shortStrides b
-      ((if f50 then ["F50"] else []) ++ (if f51 then ["F51"] else []) ++ (if f52 then ["F52"] else []) ++
-       (if f53 then ["F53"] else []) ++ (if f54 then ["F54"] else []) ++ (if f55 then ["F55"] else []) ++
-       (if f56 then ["F56"] else []) ++ (if f57 then ["F57"] else []) ++ (if f58 then ["F58"] else []) ++ (if f32 then ["F32"] else []) ++ (if f24 then ["F24"] else []), true)
+      ((if f50 then ["F50"] else []) ++ (if f51 then ["F51"] else []) ++
+       (if f53 then ["F53"] else []) ++ (if f55 then ["F55"] else []) ++
+       (if f56 then ["F56"] else []) ++ (if f58 then ["F58"] else []) ++ (if f32 then ["F32"] else []) ++ (if f24 then ["F24"] else []), true)
     | _, _ => ([], false)
 
 end La
